@@ -66,6 +66,44 @@ func zzCheckAgainst(db *TrieDB, ref map[zzKey]*gmqtt.Subscription, order []zzKey
 		}
 		zzrt.Assert(gn == n, "match-lookup-exact")
 	}
+	// lookup by topic name restricted to one client
+	var clients []string
+	for _, k := range order {
+		seen := false
+		for _, c := range clients {
+			if c == k.client {
+				seen = true
+			}
+		}
+		if !seen {
+			clients = append(clients, k.client)
+		}
+	}
+	for _, topic := range zzTopicPool {
+		for _, c := range clients {
+			var got []*gmqtt.Subscription
+			db.Iterate(func(id string, sub *gmqtt.Subscription) bool {
+				zzrt.Assert(id == c, "client-restricted-lookup-stays-with-the-client")
+				got = append(got, sub)
+				return true
+			}, subscription.IterationOptions{Type: subscription.TypeSYS | subscription.TypeNonShared, ClientID: c, TopicName: topic, MatchType: subscription.MatchFilter})
+			n := 0
+			for _, k := range order {
+				if k.client != c || ref[k] == nil || !zzref.MatchLevels(topic, k.filter) {
+					continue
+				}
+				n++
+				found := false
+				for _, g := range got {
+					if g.TopicFilter == k.filter {
+						found = true
+					}
+				}
+				zzrt.Assert(found, "client-restricted-match-lookup-complete")
+			}
+			zzrt.Assert(len(got) == n, "client-restricted-match-lookup-exact")
+		}
+	}
 	// lookup by exact filter
 	for _, f := range filters {
 		got := subscription.Get(db, f, subscription.TypeSYS|subscription.TypeNonShared)
